@@ -58,9 +58,9 @@ def check_case(case):
             continue
         # (b) g(t_e, y_e) ~ 0, relative to the scale of g
         if sp["kind"] == "dstate":
-            gv = float(g(st.t, st.y, np.asarray(dref, dtype=dtype)))
+            gv = float(np.reshape(g(st.t, st.y, np.asarray(dref, dtype=dtype)), ()))
         else:
-            gv = float(g(st.t, st.y))
+            gv = float(np.reshape(g(st.t, st.y), ()))
         s = abs(sp["s"])
         gd_max = {"time": 1.0, "double": 2 * (abs(te) + abs(sp["tau"]) + abs(sp.get("tau2", 0.0))), "state": 1.05, "dstate": 1.05}[sp["kind"]]
         level_sc = {"time": abs(te) + abs(sp["tau"]), "double": (abs(te) + abs(sp["tau"])) * (abs(te) + abs(sp.get("tau2", 0.0))) + 1, "state": 2.0 * ysc, "dstate": 2.0 * ysc}[sp["kind"]]
@@ -98,8 +98,8 @@ def check_case(case):
 
             def g_on(tq):
                 if sp["kind"] == "dstate":
-                    return float(g(tq, interp(tq), interp.grad(tq)))
-                return float(g(tq, interp(tq)))
+                    return float(np.reshape(g(tq, interp(tq), interp.grad(tq)), ()))
+                return float(np.reshape(g(tq, interp(tq)), ()))
             gb_, ga_ = g_on(st.t - dtype(d) * dlt), g_on(st.t + dtype(d) * dlt)
             if want != 0 and (ga_ - gb_) * want < 0 and abs(ga_ - gb_) > 64 * e * s * (level_sc + 1):
                 r.v("C07/direction/%s" % name, "crossing direction is compatible with the requested direction", cs,
